@@ -47,3 +47,130 @@ package trend
 //@ loop#0 invariant s.Period <= consumed(c) && sent(result) == consumed(c) - s.Period + 1 && !closed(result)
 //@ loop#0 invariant before == rmaS(c, s.Period, sent(result) - 1)
 //@ loop#0 invariant forall k :: 0 <= k && k < sent(result) ==> result[k] == rmaS(c, s.Period, k)
+
+// ---- interface Ma: any moving average obeys the warm-up law of its own IdlePeriod ---------------------------
+//@ func interface Ma.IdlePeriod
+//@ pure
+//@ ensures result >= 0
+//@ func interface Ma.Compute
+//@ requires consumed(p0) == 0
+//@ ensures[C02] len(result) == max(0, len(p0) - self.IdlePeriod())
+//@ ensures[C03] consumed(p0) == len(p0) && closed(result)
+
+//@ func MovingMax.Compute
+//@ requires m.Period >= 1 && consumed(c) == 0
+//@ ensures[C02] len(result) == max(0, len(c) - m.IdlePeriod())
+//@ ensures[C03] consumed(c) == len(c) && closed(result)
+
+//@ func MovingMin.Compute
+//@ requires m.Period >= 1 && consumed(c) == 0
+//@ ensures[C02] len(result) == max(0, len(c) - m.IdlePeriod())
+//@ ensures[C03] consumed(c) == len(c) && closed(result)
+
+//@ func Wma.Compute
+//@ requires w.Period >= 1 && consumed(values) == 0
+//@ ensures[C02] len(result) == max(0, len(values) - w.IdlePeriod())
+//@ ensures[C03] consumed(values) == len(values) && closed(result)
+//@ lit#0 invariant rwf(window) && len(window.buffer) == w.Period
+//@ loop#0 invariant 0 <= i && i <= w.Period && rwf(window) && len(window.buffer) == w.Period
+
+//@ func Hma.Compute
+//@ requires h.wma1.Period >= 1 && h.wma2.Period >= h.wma1.Period && h.wma3.Period >= 1 && consumed(values) == 0
+//@ ensures[C02] len(result) == max(0, len(values) - h.IdlePeriod())
+//@ ensures[C03] consumed(values) == len(values) && closed(result)
+
+//@ func Dema.Compute
+//@ requires d.Ema1.Period >= 1 && d.Ema2.Period >= 1 && consumed(c) == 0
+//@ ensures[C02] len(result) == max(0, len(c) - d.IdlePeriod())
+//@ ensures[C03] consumed(c) == len(c) && closed(result)
+
+//@ func Tema.Compute
+//@ requires t.Ema1.Period >= 1 && t.Ema2.Period >= 1 && t.Ema3.Period >= 1 && consumed(c) == 0
+//@ ensures[C02] len(result) == max(0, len(c) - t.IdlePeriod())
+//@ ensures[C03] consumed(c) == len(c) && closed(result)
+
+//@ func Trima.Compute
+//@ requires t.Period >= 1 && consumed(c) == 0
+//@ ensures[C02] len(result) == max(0, len(c) - t.IdlePeriod())
+//@ ensures[C03] consumed(c) == len(c) && closed(result)
+
+//@ func Trix.Compute
+//@ requires t.Period >= 1 && consumed(c) == 0
+//@ ensures[C02] len(result) == max(0, len(c) - t.IdlePeriod())
+//@ ensures[C03] consumed(c) == len(c) && closed(result)
+
+//@ func Macd.Compute
+//@ requires 1 <= m.Ema1.Period && m.Ema1.Period <= m.Ema2.Period && m.Ema3.Period >= 1 && consumed(c) == 0
+//@ ensures[C02] len(result0) == max(0, len(c) - m.IdlePeriod()) && len(result1) == max(0, len(c) - m.IdlePeriod())
+//@ ensures[C03] consumed(c) == len(c) && closed(result0) && closed(result1)
+
+// Apo has no IdlePeriod method; its formula (fast EMA - slow EMA) implies SlowPeriod-1
+//@ func Apo.Compute
+//@ requires 1 <= apo.FastPeriod && apo.FastPeriod <= apo.SlowPeriod && consumed(c) == 0
+//@ ensures[C02] len(result) == max(0, len(c) - (apo.SlowPeriod - 1))
+//@ ensures[C03] consumed(c) == len(c) && closed(result)
+
+//@ func MassIndex.Compute
+//@ requires m.Ema1.Period >= 1 && m.Ema2.Period >= 1 && m.MovingSum.Period >= 1 && consumed(highs) == 0 && consumed(lows) == 0 && len(highs) == len(lows)
+//@ ensures[C02] len(result) == max(0, len(highs) - m.IdlePeriod())
+//@ ensures[C03] consumed(highs) == len(highs) && consumed(lows) == len(lows) && closed(result)
+
+//@ func Mls.Compute
+//@ requires m.Sum.Period >= 1 && consumed(x) == 0 && consumed(y) == 0 && len(x) == len(y)
+//@ ensures[C02] len(result0) == max(0, len(x) - m.IdlePeriod()) && len(result1) == max(0, len(x) - m.IdlePeriod())
+//@ ensures[C03] consumed(x) == len(x) && consumed(y) == len(y) && closed(result0) && closed(result1)
+
+//@ func Mlr.Compute
+//@ requires m.Mls.Sum.Period >= 1 && consumed(x) == 0 && consumed(y) == 0 && len(x) == len(y)
+//@ ensures[C02] len(result) == max(0, len(x) - m.IdlePeriod())
+//@ ensures[C03] consumed(x) == len(x) && consumed(y) == len(y) && closed(result)
+
+//@ func Tsi.Compute
+//@ requires consumed(closings) == 0
+//@ ensures[C02] len(result) == max(0, len(closings) - t.IdlePeriod())
+//@ ensures[C03] consumed(closings) == len(closings) && closed(result)
+
+//@ func TypicalPrice.Compute
+//@ requires consumed(high) == 0 && consumed(low) == 0 && consumed(closing) == 0 && len(high) == len(low) && len(low) == len(closing)
+//@ ensures[C02] len(result) == len(high)
+//@ ensures[C01] forall k :: 0 <= k && k < len(result) ==> result[k] == (high[k] + low[k] + closing[k]) / 3
+//@ ensures[C03] consumed(high) == len(high) && consumed(low) == len(low) && consumed(closing) == len(closing) && closed(result)
+
+//@ func WeightedClose.Compute
+//@ requires consumed(highs) == 0 && consumed(lows) == 0 && consumed(closes) == 0 && len(highs) == len(lows) && len(lows) == len(closes)
+//@ ensures[C02] len(result) == len(highs)
+//@ ensures[C01] forall k :: 0 <= k && k < len(result) ==> result[k] == (highs[k] + lows[k] + closes[k] * 2) / 4
+//@ ensures[C03] consumed(highs) == len(highs) && consumed(lows) == len(lows) && consumed(closes) == len(closes) && closed(result)
+
+//@ func Vwma.Compute
+//@ requires v.Period >= 1 && consumed(closing) == 0 && consumed(volume) == 0 && len(closing) == len(volume)
+//@ ensures[C02] len(result) == max(0, len(closing) - v.IdlePeriod())
+//@ ensures[C03] consumed(closing) == len(closing) && consumed(volume) == len(volume) && closed(result)
+
+// Aroon has no IdlePeriod method; the moving max/min over Period values implies Period-1
+//@ func Aroon.Compute
+//@ requires a.Period >= 1 && consumed(high) == 0 && consumed(low) == 0 && len(high) == len(low)
+//@ ensures[C02] len(result0) == max(0, len(high) - (a.Period - 1)) && len(result1) == max(0, len(high) - (a.Period - 1))
+//@ ensures[C03] consumed(high) == len(high) && consumed(low) == len(low) && closed(result0) && closed(result1)
+
+//@ func Bop.Compute
+//@ requires consumed(opening) == 0 && consumed(high) == 0 && consumed(low) == 0 && consumed(closing) == 0 && len(opening) == len(high) && len(high) == len(low) && len(low) == len(closing)
+//@ ensures[C02] len(result) == len(opening)
+//@ ensures[C01] forall k :: 0 <= k && k < len(result) ==> result[k] == (closing[k] - opening[k]) / (high[k] - low[k])
+//@ ensures[C03] consumed(opening) == len(opening) && consumed(high) == len(high) && consumed(low) == len(low) && consumed(closing) == len(closing) && closed(result)
+
+//@ func Cci.Compute
+//@ requires c.Period >= 1 && consumed(highs) == 0 && consumed(lows) == 0 && consumed(closings) == 0 && len(highs) == len(lows) && len(lows) == len(closings)
+//@ ensures[C02] len(result) == max(0, len(highs) - c.IdlePeriod())
+//@ ensures[C03] consumed(highs) == len(highs) && consumed(lows) == len(lows) && consumed(closings) == len(closings) && closed(result)
+
+//@ func Envelope.Compute
+//@ requires consumed(closings) == 0
+//@ ensures[C02] len(result0) == max(0, len(closings) - e.IdlePeriod()) && len(result1) == len(result0) && len(result2) == len(result0)
+//@ ensures[C03] consumed(closings) == len(closings) && closed(result0) && closed(result1) && closed(result2)
+
+//@ func Kdj.Compute
+//@ requires kdj.MovingMax.Period >= 1 && kdj.MovingMin.Period == kdj.MovingMax.Period && kdj.Sma1.Period >= 1 && kdj.Sma2.Period >= 1
+//@ requires consumed(high) == 0 && consumed(low) == 0 && consumed(closing) == 0 && len(high) == len(low) && len(low) == len(closing)
+//@ ensures[C02] len(result0) == max(0, len(high) - kdj.IdlePeriod()) && len(result1) == len(result0) && len(result2) == len(result0)
+//@ ensures[C03] consumed(high) == len(high) && consumed(low) == len(low) && consumed(closing) == len(closing) && closed(result0) && closed(result1) && closed(result2)
